@@ -25,9 +25,148 @@ def full_mps(rng, L, qd, cplx=True, fat=False):
     return psi
 
 
+def sector_state(rng, L, qd, qtot, cplx=True):
+    """generic state of the charge sector `qtot` with the maximal bond dimensions of that sector: every left configuration
+    gets a bond state of its own, then both orthonormalisation sweeps reduce each charge block of each bond to
+    min(#left configurations, #right configurations); None if the sector is empty"""
+    import pytenet as ptn
+    qd = np.asarray(qd)
+    qD = [np.array([0])]
+    for _ in range(L - 1):
+        qD.append(np.sort((qD[-1][:, None] + qd[None, :]).reshape(-1)))
+    qD.append(np.array([qtot]))
+    psi = ptn.MPS(qd, qD, fill='postpone')
+    for i in range(L):
+        shape = (len(qd), len(qD[i]), len(qD[i + 1]))
+        A = rng.standard_normal(shape) + (1j * rng.standard_normal(shape) if cplx else 0)
+        psi.A[i] = np.where(ptn.qnumber_outer_sum([psi.qd, psi.qD[i], -psi.qD[i + 1]]) == 0, A, 0)
+    if not np.any(dense_mps(psi)):
+        return None
+    psi.orthonormalize(mode='left')
+    psi.orthonormalize(mode='right')
+    return psi
+
+
+def _count(qd, n):
+    """{charge: number of configurations of n sites with that total charge}"""
+    c = {0: 1}
+    for _ in range(n):
+        c2 = {}
+        for q, m in c.items():
+            for x in qd:
+                c2[q + int(x)] = c2.get(q + int(x), 0) + m
+        c = c2
+    return c
+
+
+def bond_kinds(psi):
+    """for every interior bond b: (complete, left-complete, right-complete).  With l(q) / r(q) the number of left / right
+    configurations compatible with bond charge q in the state's sector, the charge block q of a complete bond has
+    dimension min(l, r); the bond is left-complete if every block has dimension l(q) (the left basis spans all left
+    configurations of the sector), right-complete if every block has dimension r(q)."""
+    L = len(psi.A)
+    q0, qL = int(psi.qD[0][0]), int(psi.qD[L][0])
+    out = []
+    for b in range(1, L):
+        lc = {q + q0: m for q, m in _count(psi.qd, b).items()}
+        rc = {qL - q: m for q, m in _count(psi.qd, L - b).items()}
+        qs = [q for q in lc if q in rc]
+        D = {q: int(np.sum(np.asarray(psi.qD[b]) == q)) for q in qs}
+        out.append((all(D[q] == min(lc[q], rc[q]) for q in qs) and len(psi.qD[b]) == sum(D.values()),
+                    all(D[q] == lc[q] for q in qs), all(D[q] == rc[q] for q in qs)))
+    return out
+
+
+def splitting_exact(kinds, two):
+    """sufficient condition for the projector-splitting integrator to be exact on a complete manifold: the left-complete
+    bonds form a prefix 1..m and the right-complete bonds the suffix m+1..L-1 (two-site: m+2..L-1).  Then every backward
+    bond (or one-site) step cancels against a neighbouring forward step and exactly one forward step acts with the full
+    operator.  Without quantum numbers (and for most sectors) maximal bond dimensions always have this form.  A bond with
+    one charge block limited by the left and another limited by the right environment ("mixed") admits every vector of the
+    sector as well, but the splitting is then not exact: known finding F10 (see known_findings.txt)."""
+    nb = len(kinds)                       # interior bonds 1..nb
+    if not all(k[0] for k in kinds):
+        return False
+    for m in range(0, nb + 1):
+        left_ok = all(kinds[b - 1][1] for b in range(1, m + 1))
+        right_ok = all(kinds[b - 1][2] for b in range(m + (2 if two else 1), nb + 1))
+        if left_ok and right_ok and (not two or m <= max(nb - 1, 0)):
+            return True
+    return False
+
+
+def sector_case(rng, H=None, L=None, qtot=None, two=None, dtv=None, n=1, cplx=True):
+    """TDVP on the complete manifold of a quantum-number sector against the dense exponential
+    -> (expected_exact, error, description) or None"""
+    import pytenet as ptn
+    from scipy.linalg import expm
+    if H is None:
+        k = int(rng.integers(0, 3))
+        L = int(rng.integers(2, 5))
+        if k == 0:
+            H = ptn.heisenberg_xxz_mpo(L, float(rng.choice([1, -1.5, 4 / 3])), float(rng.choice([0.5, 1, -0.7])), float(rng.choice([0, 0.3])))
+        elif k == 1:
+            H = ptn.bose_hubbard_mpo(3, min(L, 3), float(rng.choice([1, 0.5])), float(rng.choice([0.7, 2])), float(rng.choice([0.2, -0.5])))
+            L = min(L, 3)
+        else:
+            qd = [np.array([1, -1]), np.array([0, 1]), np.array([0, 1, 1])][int(rng.integers(0, 3))]
+            if len(qd) == 3:
+                L = min(L, 3)
+            H = evolib.hermitian_mpo(rng, L, qd, exact_vals=False)
+        tot = sorted(_count(H.qd, L))
+        qtot = int(tot[int(rng.integers(0, len(tot)))])
+        two = bool(rng.random() < 0.5)
+        n = int(rng.integers(1, 3))
+        cplx = bool(rng.random() < 0.7)
+    Hd = dense_mpo(H)
+    if np.abs(Hd - Hd.conj().T).max() > 1e-12 or not np.any(Hd):
+        return None
+    psi = sector_state(rng, L, H.qd, qtot, cplx)
+    if psi is None:
+        return None
+    if dtv is None:
+        dtv = complex(rng.choice([0.1, 0.1j, -0.05j, 0.05 + 0.1j, -0.1 + 0.05j])) / max(1.0, np.linalg.norm(Hd, 2)) * float(rng.choice([1, 5, 12]))
+    kinds = bond_kinds(psi)
+    expect = splitting_exact(kinds, two)
+    v0 = dense_mps(psi); v0 = v0 / np.linalg.norm(v0)
+    d = len(H.qd)
+    numiter = (d * d if two else d) * max(psi.bond_dims) ** 2 + 2
+    D0 = list(psi.bond_dims)
+    if two:
+        ptn.integrate_local_twosite(H, psi, dtv, n, numiter_lanczos=numiter, tol_split=0)
+    else:
+        ptn.integrate_local_singlesite(H, psi, dtv, n, numiter_lanczos=numiter)
+    ref = expm(-dtv * n * Hd) @ v0
+    err = np.linalg.norm(dense_mps(psi) - ref) / max(1, np.linalg.norm(ref))
+    return expect, err, (f'{"two" if two else "single"}-site TDVP on the complete manifold of the charge sector {qtot} (qd={list(map(int, H.qd))}, L={L}, '
+                         f'bond dimensions {D0}, dt={dtv}, n={n})')
+
+
+def known_findings_present(k):
+    """F10: the two listed inputs, replayed on the real code"""
+    if k.get('key') != 'tdvp-sector-mixed-bond':
+        return False
+    import pytenet as ptn
+    try:
+        r1 = sector_case(np.random.default_rng(10), H=ptn.heisenberg_xxz_mpo(4, 4 / 3, 5 / 13, -2 / 7), L=4, qtot=2, two=False, dtv=0.25j)
+        r2 = sector_case(np.random.default_rng(10), H=ptn.heisenberg_xxz_mpo(5, 4 / 3, 5 / 13, -2 / 7), L=5, qtot=3, two=True, dtv=0.25j)
+    except Exception:
+        return False
+    return bool((r1 and not r1[0] and r1[1] > 1e-7) or (r2 and not r2[0] and r2[1] > 1e-7))
+
+
 def oracle_case(rng):
     import pytenet as ptn
     from scipy.linalg import expm
+    if rng.random() < 0.4:
+        # complete manifolds of quantum-number sectors (includes bonds of dimension one and one-dimensional sectors)
+        try:
+            r = sector_case(rng)
+        except Exception as ex:
+            return f'raises {type(ex).__name__}: {ex}'
+        if r is not None and r[0] and r[1] > 1e-7:
+            return f'{r[2]} deviates from expm(-dt*n*H) psi by {r[1]:.3g}'
+        return None
     k = int(rng.integers(0, 2))
     two = bool(rng.random() < 0.5) and k == 0
     L = int(rng.integers(2 if two else 1, 4)); d = 2
